@@ -6,7 +6,7 @@ use rayon::iter::IntoParallelIterator;
 use crate::graph::graph_node::GraphNode;
 use crate::graph::Graph;
 use crate::model::node::{NodeIter, NodePointer};
-use crate::model::NodeId;
+use crate::model::{Key, LineNumber, NodeId};
 use rayon::prelude::*;
 
 use super::GraphContext;
@@ -75,6 +75,16 @@ impl NodePath {
         parents.remove(0);
         NodePath { ids: parents }
     }
+
+    /// Where the path's sections are in the library: (note key, line) per element.
+    /// Unlike the node ids this does not depend on the order in which notes were
+    /// inserted or edited; for a freshly imported graph both orders agree.
+    pub fn position(&self, graph: &Graph) -> Vec<(Key, Option<LineNumber>)> {
+        self.ids
+            .iter()
+            .map(|id| (graph.node_key(*id), graph.node_line_number(*id)))
+            .collect()
+    }
 }
 
 pub fn graph_to_paths(graph: &Graph) -> Vec<NodePath> {
@@ -97,7 +107,13 @@ pub fn graph_to_paths(graph: &Graph) -> Vec<NodePath> {
         })
         .collect();
 
-    paths.into_iter().sorted().dedup().collect_vec()
+    paths
+        .into_iter()
+        .map(|path| (path.position(graph), path))
+        .sorted()
+        .map(|(_, path)| path)
+        .dedup()
+        .collect_vec()
 }
 
 fn paths_for_node(graph: &Graph, id: NodeId, nodes: &mut HashSet<NodeId>) -> Vec<NodePath> {
